@@ -322,12 +322,12 @@ def run(tier: str) -> int:
         tags_file = str(d / "tags.json")
         Path(tags_file).write_text(json.dumps(tag_table()))
         rng = random.Random(common.seed() * 7919 + 3)
-        pages = [rpage(rng, thorough) for _ in range(6000 if thorough else 800)]
+        pages = [rpage(rng, thorough) for _ in range(4000 if thorough else 320)]
         pf = d / "pages.json"
         pf.write_text(json.dumps(pages))
         grid = "GT" if thorough else "GQ"
         plan = [(grid, 32 if thorough else 16, "GenInv"), ("EL", 3, "GenInv"), ("CALL", 3, "GenInv"),
-                ("NEST", 3, "GenInv"), ("FILE", 8 if thorough else 3, "GenInvF")]
+                ("NEST", 3, "GenInv"), ("FILE", 16 if thorough else 8, "GenInvF")]
         bycase = run_gens(o, plan, known, tags_file, str(pf))
         nolaw = [c for c in bycase["FILE"] if not c["law"]]
         if nolaw:
